@@ -28,6 +28,7 @@ class Dying(BacktrackSolver):
                     except Exception:
                         pass
                     if MODE == "exit": os._exit(3)
+                    if MODE == "exit0": os._exit(0)  # a CLEAN exit status without the marker (an inherited SIGTERM handler calling sys.exit(0))
                     if MODE == "raise": raise RuntimeError("boom")
                     if MODE == "kill": os.kill(os.getpid(), 9)
                 s.n += 1
@@ -87,7 +88,8 @@ def run(ctx):
                 scenarios.append((workers, workers - 1, die_after, mode, False))
     # optimisation: death before the first message, and death AFTER a solution was sent (instead of the completion marker) — alone,
     # as the last worker to speak, or while another worker is still to speak
-    opt_sc = [(2, 0, 0, "exit", True), (1, 0, 1, "exit", True), (2, 1, 1, "exit", True), (2, 0, 1, "kill", True)]
+    opt_sc = [(2, 0, 0, "exit", True), (1, 0, 1, "exit", True), (2, 1, 1, "exit", True), (2, 0, 1, "kill", True),
+              (2, 1, 2, "exit0", False), (2, 0, 1, "exit0", True)]
     if ctx["tier"] == "thorough":
         opt_sc += [(3, 2, 1, "raise", True), (3, 0, 1, "exit", True), (1, 0, 1, "kill", True)]
     if ctx["tier"] == "quick":
